@@ -3,3 +3,4 @@ import Dicom.Props.C12
 #print axioms Dicom.C12.peer_cannot_crash_acceptor
 #print axioms Dicom.C12.peer_cannot_crash_requester
 #print axioms Dicom.C12.bad_pdu_aborts
+#print axioms Dicom.C12.no_byte_stream_crashes_acceptor
